@@ -33,9 +33,9 @@ Definition C02_full (atomic_lock : bool) : Prop :=
 Theorem C02_reader_between_flips_refuted : ~ C02_full true.
 Proof.
   intros F. destruct w1_refutes as [Hw [Hd [_ Hs]]].
-  specialize (F 10 sto3 (s_txs w1_sys) w1_sched Hw Hd).
-  apply ser_check_complete in F. change (init_sys 10 true sto3 (s_txs w1_sys)) with w1_sys in F.
-  rewrite Hs in F. discriminate.
+  assert (E : init_sys 10 true sto3 (s_txs w1_sys) = w1_sys) by reflexivity.
+  pose proof (F 10 sto3 (s_txs w1_sys) w1_sched) as F'. cbv zeta in F'. rewrite E in F'.
+  specialize (F' Hw Hd). apply ser_check_complete in F'. rewrite Hs in F'. discriminate.
 Qed.
 Print Assumptions C02_reader_between_flips_refuted.
 
@@ -48,9 +48,9 @@ Theorem C02_untracked_negative_lookup_refuted :
     all_done (run s sched) = true /\ ~ serializable (hist (run s sched)).
 Proof.
   exists w3_sys, w3_sched. destruct w3_refutes as [Hw [Hd [_ Hs]]].
-  repeat split; auto.
+  split; [exact Hw|]. split; [reflexivity|]. split.
   - intros t [H|[H|[]]]; subst; reflexivity.
-  - now apply ser_check_false.
+  - split; [exact Hd|]. apply ser_check_false. exact Hs.
 Qed.
 Print Assumptions C02_untracked_negative_lookup_refuted.
 
@@ -63,9 +63,9 @@ Theorem C02_write_skew_refuted :
     all_done (run s sched) = true /\ ~ serializable (hist (run s sched)).
 Proof.
   exists w2_sys, w2_sched. destruct w2_refutes as [Hw [Hd [_ Hs]]].
-  repeat split; auto.
+  split; [exact Hw|]. split; [reflexivity|]. split.
   - intros t [H|[H|[]]]; subst; reflexivity.
-  - now apply ser_check_false.
+  - split; [exact Hd|]. apply ser_check_false. exact Hs.
 Qed.
 Print Assumptions C02_write_skew_refuted.
 
@@ -114,4 +114,7 @@ Example C02_nonvacuous :
                [1;1;1;1;1;1;1;1;1;1;1; 2;2;2;2;2;2;2;2;2;2;2] in
   all_done s = true /\ forallb is_committed (s_txs s) = true /\ ser_check (hist s) = true /\
   In [PRd 0; PWr 10 6] (progs2 alpha1) /\ In [PRd 10; PWr 10 8] partners.
-Proof. vm_compute. repeat split; auto 10. Qed.
+Proof.
+  cbv zeta. split; [vm_compute; reflexivity|]. split; [vm_compute; reflexivity|].
+  split; [vm_compute; reflexivity|]. split; [vm_compute; tauto|vm_compute; tauto].
+Qed.
